@@ -91,7 +91,7 @@ def run_case(case):
         gains = G.random_gains(rng, "random" if rng.random() < 0.85 else "uniform")
         aimax, maxint = ((0.5, 8192), (0.62, 2048), (0.62, 8192), (0.6, 512))[int(rng.integers(0, 4))] if kind.startswith("NP2") else (0.6, 512)
         rec = G.make(rng, kind=kind, sites=G.draw_sites(rng, kind, n, mode), encoding=enc, gains=gains, ns=ns, aimax=aimax, maxint=maxint,
-                     fs=float(rng.choice([30000.0, 30000.390639481])))
+                     fs=float(rng.choice([30000.0, 30000.390639481])), nsync=int(rng.choice([1, 1, 1, 1, 0])))
         n = rec.n
         order = np.r_[rec.order if sort else np.arange(n), np.arange(n, rec.nc)]
         nontrivial = (not np.array_equal(order, np.arange(rec.nc))) and len(np.unique(rec.s2v[:n])) > 1
@@ -133,7 +133,7 @@ def run_case(case):
         csel, clab = S.channel_selector(rng, rec.nc, fancy_ok=not S.is_fancy(nsel) or len(nsel) == 0)
         if S.is_fancy(nsel) and S.is_fancy(csel) and len(nsel) and len(csel):
             csel, clab = slice(None), "slice"
-        entry = int(rng.integers(0, 5))
+        entry = int(rng.integers(0, 5)) if rec.nsync else int(rng.integers(0, 3))      # the sync companions need a sync channel
         label = f"{label0} sr[{S.describe(nsel)}, {S.describe(csel)}] via {['getitem2', 'getitem1', 'read', 'read_samples', 'read+sync'][entry]}"
         key = "read"
         if cbin and nlab == "slice-negstep":
